@@ -42,7 +42,15 @@ DefOwner == [k |-> "default", alt |-> TRUE]
 Pool == [n \in 1..Len(Kinds) |-> Cx1(<<HsK(Kinds[n])>>)] \o
         << Cx1(<<TypeS(Star), DefOwner>>), Cx1(<<HsDirS("ltr")>>), Cx1(<<HsDirS("rtl")>>),
            Cx1(<<TypeS(Star), DirAlt("ltr")>>), Cx1(<<TypeS(Star), DirAlt("rtl")>>) >>
-ASSUME PrintT(ToJson([pool |-> [s \in 1..Len(Pool) |-> <<Pool[s]>>]]))
+\* the same pseudo-classes asked by a caller whose prefix map has a DEFAULT namespace (not XHTML) and a prefix for XHTML: `h|*:checked`,
+\* `*|*:checked`.  The definitions of the state pseudo-classes are the library's own and are read with their own private prefix map: the
+\* caller's map decides about h|* and *|* only.
+HPFX == <<104>>
+CallerMap == <<[p |-> <<>>, u |-> SVG], [p |-> HPFX, u |-> XHTML]>>
+NKinds == <<"checked", "enabled", "disabled", "required", "optional", "read-only", "link", "any-link", "default">>
+PoolN == [n \in 1..Len(NKinds) |-> Cx1(<<[TypeS(Star) EXCEPT !.ns = [t |-> "pfx", p |-> HPFX]], HsK(NKinds[n])>>)] \o
+         [n \in 1..Len(NKinds) |-> Cx1(<<[TypeS(Star) EXCEPT !.ns = [t |-> "any"]], HsK(NKinds[n])>>)]
+ASSUME PrintT(ToJson([pool |-> [s \in 1..Len(Pool) |-> [sel |-> <<Pool[s]>>]] \o [s \in 1..Len(PoolN) |-> [sel |-> <<PoolN[s]>>, ns |-> CallerMap]]]))
 
 CanHold(p) == IF p = 0 THEN Len(doc.parent) = 0 ELSE doc.name[p] \in Containers
 Init == doc \in {EmptyDoc("doc", FALSE), EmptyDoc("doc", TRUE)}
@@ -55,7 +63,9 @@ Next == /\ Len(doc.parent) < MaxNodes
 
 Env == [nsmap |-> <<>>, scope |-> RootOf(doc)]
 Rel1(s) == {i \in Elems(doc) : Matches(doc, Env, <<Pool[s]>>, i)}
-Res == [s \in 1..Len(Pool) |-> MaskUpTo(Rel1(s), Len(doc.parent))]
+EnvN == [nsmap |-> CallerMap, scope |-> RootOf(doc)]
+RelN(s) == {i \in Elems(doc) : Matches(doc, EnvN, <<PoolN[s]>>, i)}
+Res == [s \in 1..Len(Pool) |-> MaskUpTo(Rel1(s), Len(doc.parent))] \o [s \in 1..Len(PoolN) |-> MaskUpTo(RelN(s), Len(doc.parent))]
 Emit == PrintT(ToJson([doc |-> doc, res |-> Res]))
 
 \* (the totality half of the :dir law needs a direction for foreign parents, which only the
